@@ -1,7 +1,7 @@
 """Data for MANIFEST.json (edit here, then run tools_manifest.py)."""
 
 PYVC_PROPS = ["C04", "C08", "C16"]
-BOUNDED_PROPS: list[str] = ["C04", "C06", "C09", "C10", "C11", "C12", "C15"]
+BOUNDED_PROPS: list[str] = ["C04", "C06", "C09", "C14", "C10", "C11", "C12", "C15"]
 
 
 def chk(pid, category, text, note, technique, design_ref):
@@ -101,6 +101,12 @@ CHECKS += [
          "once (restricted by the optional filter), each trace's spans == its nodes rows with child links == its association rows; traces longer than / "
          "equal to / shorter than the batch size and off batch boundaries, interleaved ingestion order.",
          "Bounded exploration on real sqlite; the nested lazy generators are consumed in the order the real consumers use.", "DESIGN.md 4/C12"),
+    bchk("C14", "BOUNDED (never counted as proved). Through the real entry point otel_to_puml: otel2puml on a data set versus otel2pv with saved events "
+         "followed by pv2puml on the saved files, with the default and with a fully renamed field mapping, sync and async: the saved PV files hold exactly "
+         "the events, links and field values of the in-memory stream (under the renamed keys), loading inverts saving, and the models learned on the two "
+         "routes are equal per workflow.",
+         "Bounded exploration on seeded trace sets; diagram text is not compared (C03). The deductive contracts of DESIGN 4/C14 on "
+         "transform_dict_into_pv_event / the save comprehension are not part of this check.", "DESIGN.md 4/C14"),
     bchk("C15", "BOUNDED (never counted as proved). Every history of <= 3 runs (ingest / no ingest x unique graphs on / off) of the real entry point "
          "otel_to_pv over a file-backed store, with time_buffer 0 and 1: each run terminates, keeps the store well-formed (association rows match stored "
          "spans) and reproduces the PV sequences and selected shapes of the first run with the same flags.",
@@ -115,7 +121,6 @@ NOT_APPLICABLE = [
     {"property_id": "C05", "reason": "text well-formedness depends on the nesting shapes the heuristic walk can emit; the emitter alone has no closed precondition (DESIGN 5)"},
     {"property_id": "C07", "reason": "recursive SCC decomposition with reachability over mutated graphs; inputs 'graphs the learner can build' have no closed precondition (DESIGN 5)"},
     {"property_id": "C13", "reason": "needs a formal semantics of jq programs; contracts on string concatenation cannot express it (DESIGN 5)"},
-    {"property_id": "C14", "reason": "check under construction in this round (not yet registered)"},
 ]
 
 NOTES = ("Technique: contract-based deductive verification of the real code (sidecar contracts, VCs generated from /repo's current source on "
